@@ -11,6 +11,13 @@ constant scalar fields such as Twofish.start).  Every panic edge met is an oblig
 
 discharged iff it cannot fail in the abstract state of *any* visit.  The dev profile has overflow checks and
 debug assertions on, so "no such edge can fire" is exactly "release computes the same value".
+
+ E  engine canaries (analysis/canary.py, roots/src/canary.rs): 12 pairs of tiny functions with a known verdict -- the
+    interpreter must flag every `bad_*` and discharge every `good_*` on every run, so an engine that stopped seeing a
+    class of panic edge fails the check instead of passing vacuously.
+ W  the BelT wide-block functions: belt_wblock_enc / belt_wblock_dec on a buffer of *every* length >= 32 at once
+    (c18.all_lengths: the length is an unknown in [32, isize::MAX] carried as a linear term; slice bounds that are
+    relational in the length are decided from the linear normal forms) -- result Ok, every panic edge discharged.
 """
 import json, os
 from facts import *
@@ -31,6 +38,14 @@ def run(chk, facts_by_config):
                     'constructors / Clone / From are the only ways to obtain an instance (C12 K: clones are field-wise)']
     reviewed = load_reviewed()
     res = ctor.run_all(facts_by_config, lens=ctor.lens_for_tier(chk.tier))
+    import c18, canary
+    for cfgname, F in facts_by_config.items():
+        canary.report(chk, cfgname, F.mono)
+        for fname in ('belt_wblock_enc', 'belt_wblock_dec'):
+            if 'verif_root__belt_block__free__' + fname not in F.mono.roots:
+                chk.fail_closed('W-wblock-total', '%s|%s' % (cfgname, fname), 'root for %s missing' % fname)
+                continue
+            c18.report_all_lengths(chk, 'W-wblock-total', c18.all_lengths(F.mono, cfgname, fname))
     for cfgname in facts_by_config:
         chk.configs.append(cfgname)
         n_sites = 0
